@@ -20,6 +20,7 @@ import (
 	"os"
 	"os/exec"
 	"regexp"
+	"runtime"
 	"sort"
 	"strconv"
 	"strings"
@@ -146,6 +147,11 @@ func newStore(ttl int64) *store {
 	return &store{cs: cs, issued: map[uint64]string{}}
 }
 
+// newStoreQuick: for the untimed races (no sleeps, so no sweep can fall into them)
+func newStoreQuick(ttl int64) *store {
+	return &store{cs: ttlcode.NewDefaultCodeStore().WithTTL(ttl), issued: map[uint64]string{}}
+}
+
 func (s *store) codeString(c uint64) string {
 	if v, ok := s.issued[c]; ok {
 		return v
@@ -244,32 +250,59 @@ func runSeq(c *Case) {
 	}
 }
 
+// runRace: the prefix history on a fresh store, then N goroutines spinning on one flag so that they
+// call ExchangeCode as nearly together as the machine allows; repeated for several rounds (fresh store
+// each). Reported: the number of winners if all rounds agree, otherwise the round that disagrees most.
 func runRace(c *Case) {
-	s := newStore(c.TTL)
+	rounds := 12
+	lo, hi := 1<<30, -1
+	for k := 0; k < rounds; k++ {
+		w := raceOnce(c)
+		if w < lo {
+			lo = w
+		}
+		if w > hi {
+			hi = w
+		}
+	}
+	c.Winners = lo
+	if hi > 1 {
+		c.Winners = hi
+	}
+}
+
+var procs = runtime.GOMAXPROCS(0)
+
+func raceOnce(c *Case) int {
+	s := newStoreQuick(c.TTL)
 	defer s.cs.Close()
 	for _, o := range c.Ops {
 		s.exec(o)
 	}
 	code := s.codeString(c.Code)
-	start := make(chan struct{})
-	var wins int32
-	var wg, ready sync.WaitGroup
+	var start, wins, ready int32
+	var wg sync.WaitGroup
 	for i := 0; i < c.N; i++ {
 		wg.Add(1)
-		ready.Add(1)
 		go func() {
 			defer wg.Done()
-			ready.Done()
-			<-start
+			atomic.AddInt32(&ready, 1)
+			for atomic.LoadInt32(&start) == 0 {
+				if c.N >= procs {
+					runtime.Gosched() // more presenters than processors: yield instead of starving the releaser
+				}
+			}
 			if _, err := s.cs.ExchangeCode(code); err == nil {
 				atomic.AddInt32(&wins, 1)
 			}
 		}()
 	}
-	ready.Wait()
-	close(start)
+	for atomic.LoadInt32(&ready) < int32(c.N) {
+		runtime.Gosched()
+	}
+	atomic.StoreInt32(&start, 1)
 	wg.Wait()
-	c.Winners = int(wins)
+	return int(wins)
 }
 
 // ---------------------------------------------------------------- generators
